@@ -231,9 +231,14 @@ def _init_worker(devices, x64, repo):
   warnings.filterwarnings('ignore')
 
 
+_WORKER_HISTORY = []   # indices of the units this worker process has executed so far (hidden state lives in the process)
+
+
 def _run_unit(args):
   modname, index, unit, only = args
   t0 = time.time()
+  history = list(_WORKER_HISTORY)
+  _WORKER_HISTORY.append(index)
   rec = Recorder(unit, only=only)
   try:
     mod = importlib.import_module(modname)
@@ -243,19 +248,26 @@ def _run_unit(args):
     err = traceback.format_exc()
   out = rec.export()
   out['index'] = index
+  out['history'] = history
   out['error'] = err
   out['wall'] = time.time() - t0
   return out
 
 
-def run_units(modname, units, *, workers, devices=0, x64=True, only=None, progress=True):
-  """Executes all units; returns list of exports ordered by unit index."""
+def run_units(modname, units, *, workers, devices=0, x64=True, only=None, progress=True, fresh=False):
+  """Executes all units; returns list of exports ordered by unit index.  fresh=True: one NEW process executes the
+  units sequentially in the given order (used to reproduce a case, optionally after the units that preceded it in
+  the worker that found it)."""
   import multiprocessing as mp
   repo = os.environ.get('VERIF_REPO')
   jobs = [(modname, i, u, only) for i, u in enumerate(units)]
   results = []
   t0 = time.time()
-  if workers <= 1 or len(jobs) <= 1:
+  if fresh:
+    ctx = mp.get_context('spawn')
+    with ctx.Pool(1, initializer=_init_worker, initargs=(devices, x64, repo)) as pool:
+      results = pool.map(_run_unit, jobs, chunksize=len(jobs))
+  elif workers <= 1 or len(jobs) <= 1:
     _init_worker(devices, x64, repo)
     for j in jobs:
       results.append(_run_unit(j))
@@ -309,11 +321,14 @@ def write_evidence(prop_id, tier, seed, level, coverage, assumptions, wall, viol
   return path
 
 
-def write_replay(prop_id, violation, tier, seed):
+def write_replay(prop_id, violation, tier, seed, history_units=None):
   d = os.path.join(os.environ.get('VERIF_REPLAY_DIR') or os.path.join(ROOT, 'replays'), prop_id)
   os.makedirs(d, exist_ok=True)
   payload = dict(property=prop_id, tier=tier, seed=seed, site=violation['site'], sig=violation['sig'],
                  key=violation['key'], unit=violation['unit'], detail=violation['detail'])
+  if history_units:
+    # the case only fails after these units have run in the same process (hidden state carried by the library)
+    payload['history_units'] = jsonable(history_units)
   name = hashlib.blake2b(json.dumps([payload['site'], payload['key'], payload['unit']], sort_keys=True).encode(),
                          digest_size=6).hexdigest()
   path = os.path.join(d, f'{violation["site"].replace("/", "_").replace(" ", "_")[:40]}-{name}.json')
